@@ -141,6 +141,8 @@ def reference(m, case, tabs, cia):
             taus.append(rt.slant_tau(sig, dens, segs, 1))
         elif nm in ('LeeMieContribution', 'FlatMieContribution'):
             taus.append(rt.slant_tau(np.asarray(c.sigma_xsec, float), dens, segs, 1))
+        elif nm == 'GreyDeck':
+            pass        # the user-supplied source of the licence-boundary phase is added by its caller
         else:
             raise RuntimeError(nm)
     tau = np.sum(taus, axis=0) if taus else np.zeros((N, len(wn)))
@@ -272,6 +274,73 @@ def inverted_fn(case):
                  atol=1e-15, saturated=sat)
     r.nontrivial = inverted
     r.observe(depth, trans)
+    return r
+
+
+# ---------------------------------------------------------------------------------------------
+# the boundary of the licence: a user-supplied grey source puts every ray at exactly tau = 10 (or one unit in the
+# last place above or below it, or clearly on either side) before or after the molecular absorption is added.
+# Skipping is licensed only where a set of sources already integrated exceeds 10 *strictly* at every wavenumber.
+# ---------------------------------------------------------------------------------------------
+DECKS = {'ten': 10.0, 'ten+': float(np.nextafter(10.0, np.inf)), 'ten-': float(np.nextafter(10.0, -np.inf)),
+         'nine': 9.0, 'eleven': 11.0, 'tenwn': 'tenwn'}
+
+
+def boundary_fn(case):
+    from taurex.contributions import Contribution
+    r = core.R(case)
+    N = case['N']
+    c = dict(DIMS_DEFAULT, N=N, path=case['path'], mag='tau1', contribs=['abs'], T=['iso', 1000.0])
+    fx.reset_caches()
+    tabs, cia = install(c, 1.0)
+    m = fx.build_model(spec_of(c, 1.0))
+    deck = DECKS[case['deck']]
+    if deck == 'tenwn':      # exactly 10 at one wavenumber only, above it elsewhere: the minimum is what counts
+        deck = np.full(len(WN), 12.0)
+        deck[1] = 10.0
+    else:
+        deck = np.full(len(WN), deck)
+    order = case['order']
+
+    class GreyDeck(Contribution):
+        def __init__(self):
+            super().__init__('GreyDeck')
+
+        @property
+        def order(self):
+            return order
+
+        def prepare_each(self, model, wngrid):
+            self.sigma_xsec = np.tile(deck[None, :len(wngrid)], (model.nLayers, 1))
+            yield 'Deck', self.sigma_xsec
+
+        def contribute(self, model, start_layer, end_layer, density_offset, layer, density, tau, path_length=None):
+            tau[layer] += self.sigma_xsec[layer]
+
+    m.add_contribution(GreyDeck())
+    m.build()
+    grid, depth, trans, _ = m.model()
+    tau_abs, segs, b, outer, zb, dz, Rp = reference(m, dict(c, contribs=['abs']), tabs, cia)
+    trans = np.asarray(trans, float)
+    total = tau_abs + deck[None, :]
+    sg = '%s/%s/order%d' % (case['path'], case['deck'], order)
+    if not r.check(trans.shape == total.shape, 'trans-shape', 'boundary/shape'):
+        return r
+    nlic = 0
+    for l in range(N):
+        exact = bool(np.allclose(trans[l], np.exp(-total[l]), rtol=1e-9, atol=1e-300))
+        # subsets of {deck, absorption} that license skipping the other one on this ray
+        lic = [s_ for s_ in (deck, tau_abs[l]) if s_.min() > 10]
+        ok = exact or any(np.all(trans[l] <= np.exp(-s_) * (1 + 1e-9)) and np.all(trans[l] >= np.exp(-total[l]) * (1 - 1e-9))
+                          for s_ in lic)
+        nlic += int(bool(lic))
+        r.check(bool(ok), 'transmittance-licence-boundary', 'boundary/%s' % sg, layer=l, got=trans[l],
+                full=np.exp(-total[l]), licensed_subsets=len(lic))
+    r.count('rays-with-a-licensed-subset', nlic)
+    d_of_T = rt.transit_depth(trans, Rp, m.star.radius, zb[:-1], dz)
+    r.eq(depth, d_of_T, 'depth-integral', 'boundary/depth-integral', rtol=1e-12)
+    r.nontrivial = bool(np.any(tau_abs > 1e-3))
+    r.observe(trans)
     return r
 
 
@@ -414,3 +483,6 @@ def explore(ctx):
     inv = [{'N': n, 'ntop': t, 'path': pth, 'second': sec} for n in (3, 4, 5, 7) for t in (1, 2) if t < n
            for pth in ('old', 'new') for sec in ('flat', 'lee', 'ray', 'cia')]
     ctx.run_cases('inverted_fn', inv, phase='inverted')
+    bd = [{'N': n, 'path': pth, 'deck': d_, 'order': o_} for n in (2, 4) for pth in ('old', 'new') for d_ in DECKS
+          for o_ in (3, 7)]
+    ctx.run_cases('boundary_fn', bd, phase='licence-boundary')
